@@ -2,7 +2,9 @@
 
 A generated history prefix of 0..3 completed sessions is followed by ONE
 crashing session (first or continued; root / sub-directory filler or
-in-process multi-writer; fb, npz, tfrec) observed by the crash-state
+in-process multi-writer; fb, npz, tfrec; in a quarter of the histories the
+writer program seeds the global random generators with the same constant
+before every session) observed by the crash-state
 snapshotter (vlib.fsfault): the directory is copied at every system-call
 boundary (open/create, every os.write incl. generated partial writes, close,
 rename/replace, mkdir, TFRecordWriter calls).  WITHIN one generated history
@@ -73,6 +75,11 @@ def strategy_case(draw, tier):
                   history.st_filler_op(eps, metas=True, busy=True),
                   history.st_multi_op(eps, single_process=True, metas=False,
                                       busy=True)))
+    if draw(st.integers(0, 3)) == 0:
+        # a writer program which seeds the global random number generators
+        # with a constant and is run once per session
+        for op in prefix + [crash]:
+            op["rseed"] = 0
     torn = draw(st.lists(st.integers(1, 600), min_size=0, max_size=4))
     return {"desc": desc, "prefix": prefix, "crash": crash, "torn": torn,
             "all_meta_offsets": tier == "thorough" and
@@ -369,6 +376,11 @@ def _deterministic_names():
 
     _uuid.uuid4 = uuid4
     _time.time = now
+    # any other name source the library might use
+    import random as _random
+    import numpy as _np
+    _random.seed(424242)
+    _np.random.seed(424242)
 
 
 def _digest(root) -> dict:
